@@ -115,6 +115,28 @@ def skeleton(prog: tuple) -> str:
     return ";".join(out)
 
 
+def shape(prog: tuple) -> str:
+    """Coarse program shape: the nesting of the containers plus the set of leaf statements used anywhere."""
+    leaves: set[str] = set()
+
+    def conts(p: tuple) -> str:
+        out = []
+        for s in p:
+            op = s[0]
+            if op in SCOPES:
+                out.append(f"{op}{{{conts(s[2])}}}")
+            elif op == "shield":
+                out.append(f"shield{{{conts(s[1])}}}")
+            elif op == "group":
+                out.append(f"group{{{conts(s[1])}|{conts(s[2])}}}")
+            else:
+                leaves.add(op)
+        return ";".join(out)
+
+    c = conts(prog)
+    return c + " / " + ",".join(sorted(leaves))
+
+
 def has_op(prog: tuple, ops: tuple[str, ...]) -> bool:
     for s in prog:
         if s[0] in ops:
@@ -248,8 +270,9 @@ class Alphabet:
 #  * Scheduling inside one instant goes in rounds (one step per runnable task, FIFO); the wake-up of a task whose wait is
 #    interrupted by a cancellation arrives `lat` rounds late, before (`front`) or after the tasks that were already
 #    runnable.  The statement does not fix this latency: a (program, injection) whose reference trace depends on
-#    (lat, front, donelat = rounds until a group notices that a child has finished) is a same-instant race between tasks
-#    and is judged by the order-independent clauses only.
+#    (lat, front, donelat = rounds until a group notices that a child has finished, eager = a checkpoint entered with a
+#    cancellation pending raises without suspending, rev = order of the runnable tasks inside a round) is a same-instant
+#    race between tasks and is judged by the order-independent clauses only.
 
 
 class _Cancelled(Exception):
@@ -276,9 +299,12 @@ class _RTask:
 
 
 class Ref:
-    def __init__(self, prog: tuple, inject_at: float | None = None, lat: int = 0, bits: tuple = (), front: bool = False, donelat: int = 0) -> None:
+    def __init__(self, prog: tuple, inject_at: float | None = None, lat: int = 0, bits: tuple = (), front: bool = False, donelat: int = 0,
+                 eager: bool = True, rev: bool = False) -> None:
         self.prog, self.inject_at, self.now, self.lat, self.bits, self.npicks, self.front = prog, inject_at, 0.0, lat, bits, 0, front
         self.donelat = donelat
+        self.eager = eager and lat == 0  # a checkpoint entered with a cancellation pending raises without suspending
+        self.rev = rev  # run the runnable tasks of a round in reverse order
         self.notify: list[tuple[int, _RTask]] = []  # (round, finished child): when its parent gets to know
         self.tasks: list[_RTask] = []
         self.ready: list[_RTask] = []  # runnable in the next round
@@ -345,7 +371,7 @@ class Ref:
         op = s[0]
         if op in ("sleep", "yield", "syield"):
             d = s[1] if op == "sleep" else 0
-            if op != "syield" and self.lat == 0 and self.pending(T):
+            if op != "syield" and self.eager and self.pending(T):
                 raise _Cancelled
             if d > 0:
                 tm = self.arm(self.now + d)
@@ -491,7 +517,7 @@ class Ref:
                     due.append(T)
             cur = due + [T for T in cur if T not in due] if self.front else cur + [T for T in due if T not in cur]
             self.delayed = [(r, T) for r, T in self.delayed if r > self.round]
-            for T in cur:
+            for T in (reversed(cur) if self.rev else cur):
                 if T.state != "done":
                     self.step(T)
                     self.rescan()
@@ -566,6 +592,15 @@ def _ref_exc_name(exc: BaseException | None) -> str | None:
     return "CancelledError" if isinstance(exc, _Cancelled) else "TimeoutError"
 
 
+# scheduling policies compared with the default (lat 0, back, donelat 0, eager) to recognise same-instant races between tasks
+POLICIES = tuple(
+    [(lat, front, dl, True, False) for lat, front, dl in ((0, True, 0), (1, False, 0), (1, True, 0), (2, False, 0), (2, True, 0), (3, False, 0), (0, False, 1),
+                                                          (0, False, 2), (1, False, 1), (1, True, 1), (2, True, 2), (0, True, 2), (0, False, 3), (0, False, 4))]
+    + [(0, front, dl, False, False) for front, dl in ((False, 0), (True, 0), (False, 1), (True, 1), (True, 2), (True, 4), (False, 6))]
+    + [(lat, False, dl, eager, True) for lat, dl, eager in ((0, 0, True), (0, 1, True), (0, 2, True), (0, 2, False), (1, 1, True), (0, 0, False))]
+)  # (lat, front, donelat, eager, rev)
+
+
 class RefSet:
     """Everything the reference allows for one (program, timed injection): the default trace plus the traces of every
     resolution of the catch-or-propagate latitude; tie / race classification."""
@@ -590,9 +625,8 @@ class RefSet:
         self.race = self.main.cause_race()
         if not self.race and len(self.main.tasks) > 1:
             t0 = self.main.traces()
-            for lat, front, dl in ((0, True, 0), (1, False, 0), (1, True, 0), (2, False, 0), (2, True, 0), (3, False, 0),
-                                   (0, False, 1), (0, False, 2), (1, False, 1), (1, True, 1), (2, True, 2), (0, True, 2)):
-                if diff_traces(t0, Ref(prog, inject_at, lat, (), front, dl).run().traces(), observed=False) is not None:
+            for lat, front, dl, eager, rev in POLICIES:
+                if diff_traces(t0, Ref(prog, inject_at, lat, (), front, dl, eager, rev).run().traces(), observed=False) is not None:
                     self.race = True
                     break
 
@@ -667,6 +701,7 @@ class _TaskRec:
         self.outcome: str | None = None
         self.leaked = 0  # cancel requests already reported as left over by a scope exit of this task
         self.abort_info: dict | None = None  # child task: its situation when its TaskGroup cancelled it
+        self.ncancelled_exits = 0  # scopes of this task that were left with cancel_called() == True
 
 
 class Real:
@@ -778,7 +813,7 @@ class Real:
             cm = b.timeout(s[1])
         else:
             cm = b.open_cancel_scope(deadline=s[1])
-        c0, x0, l0 = task.cancelling(), self.ext_seen(T), T.leaked
+        c0, x0, l0, n0 = task.cancelling(), self.ext_seen(T), T.leaked, T.ncancelled_exits
         scope = cm.__enter__()
         r = _ScopeRec()
         r.scope, r.path, r.kind, r.task = scope, p, op, T
@@ -816,10 +851,22 @@ class Real:
         if op == "timeout" and ((isinstance(out, TimeoutError) and out is not exc) != caught):
             self.problems.append(("timeout-error-iff-caught", f"timeout {p}: left with {outname}, cancelled_caught()={caught}"))
         # bookkeeping: no leftover cancellation request (unless an enclosing scope of this task has requests of its own)
+        inner_cancelled = T.ncancelled_exits > n0
+        if called:
+            T.ncancelled_exits += 1
         if not any(o.scope.cancel_called() for o in T.scopes):
             c1, x1 = task.cancelling(), self.ext_seen(T)
             if c1 != c0 + (x1 - x0) + (T.leaked - l0):  # (leaks of inner scopes were reported at their own exit)
-                how = "body-completed-normally" if exc is None else "exception-at-exit"
+                if exc is None:
+                    how = "body-completed-normally"
+                elif caught:
+                    how = "caught-own-cancellation"
+                elif isinstance(exc, asyncio.CancelledError):
+                    how = "cancellation-propagated"
+                else:
+                    how = "other-exception-at-exit"
+                if inner_cancelled:
+                    how += "/after-inner-cancelled-scope"  # (whose own exit was not judged: this scope was cancelled too)
                 T.leaked += c1 - (c0 + (x1 - x0) + (T.leaked - l0))
                 self.problems.append((f"leftover-cancelling/{how}", f"scope {p}: task.cancelling() was {c0} at entry, {c1} after exit, external cancel requests meanwhile: {x1 - x0}"))
         exc = None
